@@ -136,8 +136,15 @@ def check(case: Dict[str, Any]) -> CaseInfo:
                                                                                        p["control_iter"], dev, p["short"]))
             so = hta_call("ops_diff(self, dirs)", lambda: TraceDiff.ops_diff(sides["control"][0], sides["control"][0], p["control_rank"],
                                                                             p["control_rank"], p["control_iter"], p["control_iter"], dev))
+        elif p["self_mode"] == "same_object":
+            sd = hta_call("compare_traces(self, same object)", lambda: TraceDiff.compare_traces(c_obj, c_obj, p["control_rank"], p["control_rank"],
+                                                                                                p["control_iter"], p["control_iter"], dev, p["short"]))
+            so = hta_call("ops_diff(self, same object)", lambda: TraceDiff.ops_diff(c_obj, c_obj, p["control_rank"], p["control_rank"],
+                                                                                   p["control_iter"], p["control_iter"], dev))
+            require(c_obj.label == "Control", "self:label_of_shared_object_unchanged", lambda: c_obj.label)
         else:
-            c2 = hta_call("LabeledTrace(control again)", lambda: LabeledTrace("Again", t=mk("control")))
+            c2 = hta_call("LabeledTrace(control again)", lambda: LabeledTrace("Again" if p["self_mode"] == "two_objects" else "Control",
+                                                                              t=mk("control")))
             sd = hta_call("compare_traces(self, objects)", lambda: TraceDiff.compare_traces(c_obj, c2, p["control_rank"], p["control_rank"],
                                                                                             p["control_iter"], p["control_iter"], dev, p["short"]))
             so = hta_call("ops_diff(self, objects)", lambda: TraceDiff.ops_diff(c_obj, c2, p["control_rank"], p["control_rank"],
@@ -199,7 +206,7 @@ def c17_case(draw):
         "control_rank": _rank_sel(draw, cr), "test_rank": _rank_sel(draw, tr),
         "control_iter": _iter_sel(draw, all_iterations(control)), "test_iter": _iter_sel(draw, all_iterations(test)),
         "device": draw(st.sampled_from(["ALL", "CPU", "GPU"])), "short": draw(st.sampled_from([True, False])),
-        "self_mode": draw(st.sampled_from(["same_dir", "two_objects"])),
+        "self_mode": draw(st.sampled_from(["same_object", "same_dir", "two_objects", "same_label"])),
     }
     return {"control": control, "test": test, "params": params}
 
